@@ -34,13 +34,15 @@ def run(chk):
     c = "%s:%s" % (fi.module.relpath, fi.name)
     chk.files.add(fi.module.relpath)
     # ------------------------------------------------------------------ names by role
-    rets = [n for n in ast.walk(fi.node) if isinstance(n, ast.Return) and isinstance(n.value, ast.Tuple) and len(n.value.elts) == 3
-            and all(isinstance(e, ast.Name) for e in n.value.elts)]
-    if len(rets) != 1:
-        chk.ob("R-ACC", c, "one `return u, v, a` of three named arrays", False, derived="%d such returns" % len(rets),
+    names = nj_names(fi)
+    if names is None:
+        chk.ob("R-ACC", c, "every return is `return u, v, a` of three named arrays with the same u, v", False, derived="not of that shape",
                inconclusive=True, loc=fi.loc())
         return
-    U, V, A = [e.id for e in rets[0].value.elts]
+    U, V, THIRD, rets = names
+    A = sorted(THIRD)[0]
+    from ..normalise import guards_to_ifelse
+    canon = ast.Module(body=guards_to_ifelse(fi.node.body), type_ignores=[])
     rec, dtp, per, xi = fi.params[:4]
     norm = straightline_env(fi.node.body, Normaliser())
     # ------------------------------------------------------------------ R-T0: the branch that selects s
@@ -94,7 +96,7 @@ def run(chk):
     row0 = []
     for n in ast.walk(fi.node):
         if isinstance(n, ast.Assign) and isinstance(n.targets[0], ast.Subscript) and isinstance(n.targets[0].value, ast.Name) \
-                and n.targets[0].value.id == A and isinstance(n.targets[0].slice, ast.Constant) and n.targets[0].slice.value == 0:
+                and n.targets[0].value.id in THIRD and isinstance(n.targets[0].slice, ast.Constant) and n.targets[0].slice.value == 0:
             row0.append(n)
     if len(row0) != 1:
         chk.ob("R-T0", c + "{T=0 row}", "one assignment to row 0 of the third series", False, derived="%d found" % len(row0), loc=fi.loc())
@@ -105,7 +107,7 @@ def run(chk):
                derived="assigned %s (record parameter `%s`)" % (p.canon(), rec), loc=fi.loc(row0[0]), stmt=norm_stmt(row0[0]))
         # it must sit on the branch where the offset is non-zero
         guarded = False
-        for n in ast.walk(fi.node):
+        for n in ast.walk(canon):      # canonical if/else nesting: a guard clause `if not s: return ...` puts the rest on the `s` branch
             if isinstance(n, ast.If) and isinstance(n.test, ast.Name) and n.test.id == s and any(row0[0] is x for b in n.body for x in ast.walk(b)):
                 guarded = True
         chk.ob("R-T0", c + "{T=0 row guard}", "the row-0 assignment is on the branch `if %s`" % s, guarded,
@@ -131,13 +133,13 @@ def run(chk):
     strip = lambda a: a.split("[")[0]
     w = Poly.atom(wname)
     want = -(Poly.const(2) * Poly.atom(xi) * w * Poly.atom(V)) - w * w * Poly.atom(U)
-    norm2 = straightline_env(fi.node.body, Normaliser(), exclude={wname, U, V, A} | set(fi.params))
+    norm2 = straightline_env(fi.node.body, Normaliser(), exclude={wname, U, V} | THIRD | set(fi.params))
     found = []
     for n in ast.walk(fi.node):
         if isinstance(n, ast.Assign) and len(n.targets) == 1:
             t = n.targets[0]
             tn = t.id if isinstance(t, ast.Name) else (t.value.id if isinstance(t, ast.Subscript) and isinstance(t.value, ast.Name) else None)
-            if tn != A or not isinstance(n.value, (ast.BinOp, ast.UnaryOp)):
+            if tn not in THIRD or not isinstance(n.value, (ast.BinOp, ast.UnaryOp)):
                 continue
             p = norm2.poly(n.value).subst_atoms(strip)
             rows_ok = True
@@ -200,8 +202,33 @@ def run(chk):
     from .c03 import xi_sentinel
     xi_sentinel(chk, P.fn(ACC + ".response_series"), cc, "R-FWD")
     chk.floor("R-T0", 5)
-    chk.floor("R-ACC", 9)
+    chk.floor("R-ACC", 7)
     chk.floor("R-FWD", 12)
+
+
+def nj_names(fi):
+    """(u, v, {names that hold the third series}, returns): every return is a 3-tuple of names with the same first two; the third
+    names are closed under `x = y` / `x[...] = y` copies between them"""
+    rets = [n for n in ast.walk(fi.node) if isinstance(n, ast.Return)]
+    if not rets or not all(isinstance(n.value, ast.Tuple) and len(n.value.elts) == 3 and all(isinstance(e, ast.Name) for e in n.value.elts)
+                           for n in rets):
+        return None
+    uv = {(n.value.elts[0].id, n.value.elts[1].id) for n in rets}
+    if len(uv) != 1:
+        return None
+    (U, V), = uv
+    third = {n.value.elts[2].id for n in rets}
+    changed = True
+    while changed:
+        changed = False
+        for n in ast.walk(fi.node):
+            if isinstance(n, ast.Assign) and len(n.targets) == 1 and isinstance(n.value, ast.Name):
+                t = n.targets[0]
+                tn = t.id if isinstance(t, ast.Name) else (t.value.id if isinstance(t, ast.Subscript) and isinstance(t.value, ast.Name) else None)
+                if tn in third and n.value.id not in third and n.value.id not in fi.params and n.value.id not in (U, V):
+                    third.add(n.value.id)
+                    changed = True
+    return U, V, third, rets
 
 
 def _same_if(fi, sel):
@@ -347,11 +374,10 @@ def nj_rules(chk):
     fr_ = P.fn(NJR)
     c2 = "eqsig/sdof.py:nigam_and_jennings_response"
     rec, dtp, per, xi = fr_.params[:4]
-    rets = [n for n in ast.walk(fr_.node) if isinstance(n, ast.Return) and isinstance(n.value, ast.Tuple) and len(n.value.elts) == 3
-            and all(isinstance(e, ast.Name) for e in n.value.elts)]
-    if len(rets) != 1:
+    names = nj_names(fr_)
+    if names is None:
         return
-    U, V, A = [e.id for e in rets[0].value.elts]
+    U, V, THIRD, _ = names
     # (a, b) = compute_a_and_b(xi, w, dt)
     unpack = [n for n in ast.walk(fr_.node) if isinstance(n, ast.Assign) and isinstance(n.targets[0], ast.Tuple) and isinstance(n.value, ast.Call)
               and ast.unparse(n.value.func).split(".")[-1] == "compute_a_and_b"]
@@ -360,7 +386,7 @@ def nj_rules(chk):
         return
     an, bn = [e.id for e in unpack[0].targets[0].elts]
     call = unpack[0].value
-    env0 = straightline_env(fr_.node.body, Normaliser(), exclude={U, V, A, an, bn})
+    env0 = straightline_env(fr_.node.body, Normaliser(), exclude={U, V, an, bn} | THIRD | set(fr_.params))
     argtxt = [ast.unparse(a) for a in call.args]
     # by role: first argument derives from xi, third from dt, second is the angular frequency c/periods
     wdef = [n for n in fr_.node.body if isinstance(n, ast.Assign) and isinstance(n.targets[0], ast.Name) and len(call.args) == 3 and
@@ -388,7 +414,7 @@ def nj_rules(chk):
         return
     lp_ = loops[0]
     iv = lp_.target.id
-    rng = [Normaliser().poly(a).canon() for a in lp_.iter.args] if isinstance(lp_.iter, ast.Call) and ast.unparse(lp_.iter.func) == "range" else None
+    rng = [env0.poly(a).canon() for a in lp_.iter.args] if isinstance(lp_.iter, ast.Call) and ast.unparse(lp_.iter.func) == "range" else None
     want_rng = [Normaliser().poly(_expr("len(%s) - 1" % rec)).canon()]
     chk.ob("R-NJ-REC", c2 + "{steps}", "the loop takes every step: range(len(record) - 1)", rng == want_rng, derived="range(%s)" % (rng,), loc=fr_.loc(lp_))
     for lp_, stn in stores:
@@ -398,8 +424,7 @@ def nj_rules(chk):
         rowtxt = ast.unparse(comps[0]) if comps else "?"
         col = Normaliser().poly(comps[1]).canon() if len(comps) == 2 else None
         okcol = col == Normaliser().poly(_expr("%s + 1" % iv)).canon()
-        nrm = Normaliser()
-        got = nrm.poly(stn.value)
+        got = env0.poly(stn.value)      # hoisted coefficients (a_11 = a[0][0]) and per-step views (u_i = u[s:, i]) are inlined
         reft = "{a}[{k}][0]*{U}[{r}, {i}] + {a}[{k}][1]*{V}[{r}, {i}] + {b}[{k}][0]*{f}[{i}] + {b}[{k}][1]*{f}[{i} + 1]".format(
             a=an, b=bn, U=U, V=V, f=rec, r=rowtxt, i=iv, k=which)
         want = Normaliser().poly(_expr(reft))
